@@ -88,6 +88,33 @@ def answer (line : String) : String :=
       match getTermKey t with
       | some k => s!"key {String.ofList k.vars}| {match k.exp with | some e => ratToWire e | none => "-"}"
       | none => "false"
+  | "flatproblem" :: grp :: first :: rest =>
+    let group : Option (Nat × Nat) := match grp.splitOn "," with
+      | [a, b] => match a.toNat?, b.toNat? with | some a, some b => some (a, b) | _, _ => none
+      | _ => none
+    let rec pairs : List String → Option (List (POpr × PItem))
+      | [] => some []
+      | o :: i :: more => match POpr.ofWire o, PItem.ofWire i, pairs more with
+        | some o, some i, some ps => some ((o, i) :: ps)
+        | _, _, _ => none
+      | _ => none
+    match PItem.ofWire first, pairs rest with
+    | some f, some ps =>
+      let p : FlatProblem := ⟨f, ps, group⟩
+      s!"ok={p.ok} like={p.promisesLike} " ++ " ".intercalate ("toks" :: p.toks.map Tok.toWire)
+    | _, _ => "bad-op"
+  | ["binomial", a, b, c, d] =>
+    match PItem.ofWire a, PItem.ofWire b, PItem.ofWire c, PItem.ofWire d with
+    | some a, some b, some c, some d =>
+      let p := BinomialProblem.timesBinomial a b c d
+      s!"ok={p.ok} like=false " ++ " ".intercalate ("toks" :: p.toks.map Tok.toWire)
+    | _, _, _, _ => "bad-op"
+  | ["monomial", a, b, c] =>
+    match PItem.ofWire a, PItem.ofWire b, PItem.ofWire c with
+    | some a, some b, some c =>
+      let p := BinomialProblem.timesMonomial a b c
+      s!"ok={p.ok} like=false " ++ " ".intercalate ("toks" :: p.toks.map Tok.toWire)
+    | _, _, _ => "bad-op"
   | "eval" :: rest => withTree rest fun t env => (eval (envOfWire env) t).toWire
   | _ => "bad-op"
 
